@@ -15,7 +15,8 @@ RULE = (
     'level), then re-assembled with -r k*step for the levels k of the curve (quick: <= 16 per combination, thorough: '
     'all up to 250; level 0 always when the curve spans it), passed as the float k*step and, through the CLI, as the decimal text a user would type '
     '("%.10g"); the walker recomputes the master curve from the base tables and requires 0 at level k (1e-6 s / 1e-9 '
-    'mm).  Off-grid references (k + {.5, .25, .01, .001}) * step must be refused with nothing written.  Non-trivial: '
+    'mm); the curve is also assembled a second time with another reference without clearing anything: refused with the '
+    'origin unchanged, or accepted with the origin at the newly requested level.  Off-grid references (k + {.5, .25, .01, .001}) * step must be refused with nothing written.  Non-trivial: '
     '(step, k) with k*step not exactly representable; distinct (kind, step, k) counted.'
 )
 ASSUMPTIONS = [
@@ -31,6 +32,7 @@ REQUIRED = {
         'references-inexact-in-binary': 60,
         'references-via-cli-text': 10,
         'negative-references': 50,
+        'repeated-assembly-refused-and-origin-unchanged': 10,
         'references-equal-to-zero': 4,
     }
     for tier in ('quick', 'thorough')
@@ -131,6 +133,35 @@ def check_combo(ctx, case, kind, gs, rng, max_levels, n_cli, index):
             rec.mark_nontrivial('{}|{}|{}'.format(kind, gs, k))
         if len(rec.samples) < 3 and j == 1:
             rec.sample(witness)
+    # the user assembles the curve again with another reference on the same
+    # dataset (nothing is cleared): either the command is refused and the
+    # origin stays where it was, or it is accepted and the origin moves
+    if len(levels) >= 2:
+        for _ in range(2):
+            k1, k2 = rng.sample(levels, 2)
+            rec.case()
+            curves_common.clear_curve(connection, kind)
+            if curves_common.run_curve(connection, kind, k1 * gs) is not None:
+                continue
+            exc = curves_common.run_curve(connection, kind, k2 * gs if rng.random() < 0.7 else None)
+            expect = k1 if exc is not None else (k2 if exc is None else k1)
+            if exc is None and expect == k2:
+                # accepted: origin must be at k2 (or at the top when no reference was given)
+                pass
+            f3, st3 = oracle_curves.walk_curve(connection, kind, k1 if exc is not None else None, None, cache)
+            if exc is not None:
+                rec.hit('repeated-assembly-refused-and-origin-unchanged')
+                bad = [(p, kk, w) for p, kk, w in f3 if p == PROPERTY]
+            else:
+                rec.hit('repeated-assembly-accepted')
+                # which origin was requested the second time?
+                bad = []
+                avg_zero = [kk for p, kk, w in oracle_curves.walk_curve(connection, kind, k2, None, cache)[0] if p == PROPERTY]
+                avg_top = [kk for p, kk, w in f3 if p == PROPERTY]
+                if avg_zero and avg_top:
+                    bad = [(PROPERTY, 'second-assembly-accepted-but-origin-not-at-the-requested-level', {'first_reference_level': k1, 'second_reference_level': k2})]
+            for p, kk, w in bad:
+                rec.violation('repeated-assembly:' + kk, dict(w, kind=kind, grid_step_mm=gs, levels=[k1, k2]), dict(case, curve=kind), 'combo:' + kind)
     # off-grid references
     for frac in (0.5, 0.25, 0.01, 0.001):
         k = rng.choice(levels)
